@@ -17,7 +17,7 @@ CONSTANTS
   V4Stm = {"RC4", "AES128", "Identity"}
   V4Str = {"RC4", "AES128", "Identity"}
   EMs = {TRUE, FALSE}
-  IdCfs = {"none", "entry", "custom"}
+  IdCfs = {"none", "custom"}
   V5Kinds = {"R5", "V5"}
   V5Flt = {"AES256"}
   Pairs <- PairsQuick
